@@ -7,6 +7,7 @@ package main
 
 import (
 	"fmt"
+	"os"
 	"go/ast"
 	"go/token"
 	"go/types"
@@ -358,7 +359,15 @@ func (e *e1) analyse(fi *FuncInfo) *e1func {
 }
 
 func isErrorType(t types.Type) bool {
-	return types.Identical(t, types.Universe.Lookup("error").Type())
+	et := types.Universe.Lookup("error").Type()
+	if types.Identical(t, et) {
+		return true
+	}
+	// concrete error results such as *oidc.Error (Storage.RevokeToken)
+	if _, isPtr := t.(*types.Pointer); isPtr {
+		return types.Implements(t, et.Underlying().(*types.Interface))
+	}
+	return false
 }
 
 func isBoolType(t types.Type) bool {
@@ -437,7 +446,31 @@ func (f *e1func) prepare() {
 			case *ast.AssignStmt:
 				for i, l := range s.Lhs {
 					id, ok := unparen(l).(*ast.Ident)
-					if !ok || id.Name == "_" {
+					if !ok {
+						// v.f = e / v[i] = e: v is mutated in place, never inline it
+						x := unparen(l)
+						for {
+							switch y := x.(type) {
+							case *ast.SelectorExpr:
+								x = unparen(y.X)
+								continue
+							case *ast.IndexExpr:
+								x = unparen(y.X)
+								continue
+							case *ast.StarExpr:
+								x = unparen(y.X)
+								continue
+							}
+							break
+						}
+						if rid, ok := x.(*ast.Ident); ok {
+							if o := objOf(rid); o != nil {
+								addrTaken[o] = true
+							}
+						}
+						continue
+					}
+					if id.Name == "_" {
 						continue
 					}
 					o := objOf(id)
@@ -646,6 +679,18 @@ func (f *e1func) run() {
 		in[i] = map[string]*fstate{}
 	}
 	entry := &fstate{facts: map[string]*Term{}}
+	// named results start with their zero value
+	if sig := f.fi.Sig; sig != nil {
+		for i := 0; i < sig.Results().Len(); i++ {
+			if r := sig.Results().At(i); r.Name() != "" && r.Name() != "_" {
+				if zf := zeroFacts(&Term{K: "var", S: r.Name(), Obj: r}, r.Type()); zf != nil {
+					if ns := entry.with(zf...); ns != nil {
+						entry = ns
+					}
+				}
+			}
+		}
+	}
 	in[0][entry.Key()] = entry
 	work := []int32{0}
 	onwork := map[int32]bool{0: true}
@@ -696,6 +741,24 @@ func (f *e1func) run() {
 		f.flowBlock(b, f.sorted(in[b.Index]), &f.sites)
 	}
 	sort.SliceStable(f.sites, func(i, j int) bool { return f.sites[i].pos < f.sites[j].pos })
+}
+
+// zeroFacts: what is known about a variable holding the zero value of type t.
+func zeroFacts(v *Term, t types.Type) []*Term {
+	switch u := t.Underlying().(type) {
+	case *types.Basic:
+		switch {
+		case u.Info()&types.IsBoolean != 0:
+			return []*Term{fact("def", v, mk("const", "false"))}
+		case u.Info()&types.IsString != 0:
+			return []*Term{fact("def", v, mk("const", `""`)), fact("eq", v, mk("const", `""`))}
+		case u.Info()&types.IsNumeric != 0:
+			return []*Term{fact("def", v, mk("const", "0")), fact("eq", v, mk("const", "0"))}
+		}
+	case *types.Pointer, *types.Interface, *types.Map, *types.Slice, *types.Signature, *types.Chan:
+		return []*Term{fact("nil", v)}
+	}
+	return nil
 }
 
 func intersect(all []*fstate) *fstate {
@@ -1076,6 +1139,7 @@ func (f *e1func) transfer(st *fstate, n ast.Node, sites *[]*e1site) []*fstate {
 					add = append(add, fact("def", lt, f.term(vs.Values[0]), mk("const", fmt.Sprint(i))))
 				} else if len(vs.Values) == 0 {
 					add = append(add, fact("zero", lt))
+					add = append(add, zeroFacts(lt, lt.Obj.Type())...)
 				}
 			}
 		}
@@ -1237,6 +1301,19 @@ func (f *e1func) doReturn(rs *ast.ReturnStmt, cur []*fstate, sites *[]*e1site) {
 			}
 		}
 		success := true
+		if !f.errBool && len(rs.Results) == nres {
+			// a value of struct type converted to error is never nil (op.StatusError)
+			if t := f.info.TypeOf(rs.Results[f.errIdx]); t != nil {
+				if _, isStruct := t.Underlying().(*types.Struct); isStruct {
+					success = false
+				}
+			}
+		}
+		if !success {
+			site.states = append(site.states, st)
+			site.ok = append(site.ok, false)
+			continue
+		}
 		if f.errBool {
 			switch {
 			case op.K == "const" && op.S == "false":
@@ -1602,6 +1679,9 @@ func (f *e1func) leaf(st *fstate, cond ast.Expr, val bool) ([]*Term, bool) {
 					}
 					return []*Term{fact("false", xt), fact("fail", d.A[1])}, true
 				}
+				if len(d.A) == 2 && d.A[1].K == "const" && (d.A[1].S == "true" || d.A[1].S == "false") {
+					return nil, (d.A[1].S == "true") == val
+				}
 				if len(d.A) == 2 {
 					// v := <bool expr>: re-express through the definition when it is a call
 					if d.A[1].K == "call" || d.A[1].K == "mcall" {
@@ -1665,6 +1745,9 @@ func (f *e1func) statusFacts(st *fstate, x ast.Expr, xt *Term, isNil bool) []*Te
 		return nil
 	}
 	d := f.defOf(st, xt)
+	if os.Getenv("E1DEBUG") != "" {
+		fmt.Fprintf(os.Stderr, "statusFacts %s: def=%v\n", xt.Key(), d)
+	}
 	if d == nil {
 		return nil
 	}
